@@ -1,4 +1,5 @@
 """Generic obligation kinds built on the E1 engine. Every function here records obligations on ctx."""
+import os
 import re
 from lib import Engine, CallGuard, classify_ret, loc, describe_path, FROM_RESIDUAL
 import logs
@@ -44,7 +45,7 @@ def effect_requires(ctx, rule, fn, effect_name, is_effect, guards_any, detail_ok
     # established, no effect block is reachable from entry, and no guard call site can be re-executed on the way from
     # its establishing edge to the effect (no loop through it), the obligation holds without path enumeration.
     try:
-        pre = _cheap_precheck(fn, effset, guards_any)
+        pre = False if os.environ.get('VERIF_EXHAUSTIVE') else _cheap_precheck(fn, effset, guards_any)
     except Exception:
         pre = False
     if pre:
